@@ -207,7 +207,14 @@ def run_sites(which, prefix, opts):
                 break
         e.site = (ph, kind, sa or (chain[0] if chain else "?"))
         events.append(e)
-    info["progress_fields"] = parse_progress(info.get("progress", ""))
+    pf = parse_progress(info.get("progress", ""))
+    info["progress_fields"] = pf
+    # what the UNFAULTED session already does wrong belongs to other properties (C15/C09): run k is judged against it
+    btxt = symbolize_reports(x, [r.err])[0]
+    bs = sanlog.parse_asan(btxt)
+    info["baseline"] = {"asan": sorted({k for k, _ in bs if k.startswith("asan|")}),
+                        "lsan": sorted({k for k, _ in bs if k.startswith("lsan|")}),
+                        "live": [int(v) for v in pf.get("live", "0,0,0,0").split(",")]}
     return events, info
 
 
@@ -352,15 +359,16 @@ def parked_functions(gdb_text):
     return out
 
 
-def classify(which, e, r):
+def classify(which, e, r, baseline=None):
     """-> (list of (token, what), verdict) verdict in {'held','violated','inconclusive','nothit'}"""
+    baseline = baseline or {"asan": [], "lsan": [], "live": [0, 0, 0, 0]}
     pf = parse_progress(r.get("progress", ""))
     api = API[which][e.phase]
     out = []
     errtxt = r.get("err", "")
     san = [s for s in sanlog.parse_asan(errtxt)]
-    asan = [s for s in san if s[0].startswith("asan|")]
-    lsan = [s for s in san if s[0].startswith("lsan|")]
+    asan = [s for s in san if s[0].startswith("asan|") and s[0] not in baseline["asan"]]
+    lsan = [s for s in san if s[0].startswith("lsan|") and s[0] not in baseline["lsan"]]
     if r.get("hard_timeout"):
         return [("timeout", "hard watchdog without a quiescent dead-lock; progress=%s" % r.get("progress"))], "inconclusive"
     if r.get("hang"):
@@ -379,6 +387,7 @@ def classify(which, e, r):
         for key, ex in asan[:2]:
             parts = key.split("|")
             kind, fn = parts[1], parts[2]
+            kind = re.sub(r"\s+on$", "", kind).replace("attempting ", "").replace(" ", "-")
             tok = fn if kind == "SEGV" else "%s:%s" % (kind, fn)
             out.append((tok, "AddressSanitizer %s in %s (%s) after failing %s #%d in %s; stage: %s\n%s"
                         % (kind, fn, parts[3] if len(parts) > 3 else "", KINDS[e.kind], e.k, e.site_fn,
@@ -394,9 +403,11 @@ def classify(which, e, r):
         leaks = []
         if th[0] != th[1]:
             leaks.append("threads %s -> %s" % (th[0], th[1]))
-        if live != "0,0,0,0" and live != "-1,-1,-1,-1":
-            leaks.append("H8 live entries (memory,mutex,semaphore,thread) = %s" % live)
-        if pf.get("lsan", "0") != "0" or lsan:
+        lv = [int(v) for v in live.split(",")]
+        if any(a > b for a, b in zip(lv, baseline["live"])) and lv[0] >= 0:
+            leaks.append("H8 live entries (memory,mutex,semaphore,thread) = %s (unfaulted session: %s)"
+                         % (live, ",".join(str(v) for v in baseline["live"])))
+        if lsan or (pf.get("lsan", "0") != "0" and not baseline["lsan"]):
             leaks.append("LeakSanitizer: %s" % ", ".join(sorted({k.split("|", 2)[2] for k, _ in lsan})[:4]))
         if leaks:
             out.append(("leak", "after teardown: %s (failed %s #%d in %s)" % ("; ".join(leaks), KINDS[e.kind], e.k, e.site_fn)))
@@ -423,26 +434,36 @@ def tiny_ivf(chk_dir):
     prefix = os.path.join(chk_dir, "tinyivf")
     case = {"width": 64, "height": 64, "frames": 3, "cfg.enc_mode": 8, "cfg.logical_processors": 1,
             "cfg.intra_period_length": -1, "cfg.hierarchical_levels": 3, "content": "pan"}
-    res = enc.run_case("plain", case, prefix)
+    res = enc.run_case("asan", case, prefix)
     if res.timed_out:
-        res = enc.run_case("plain", case, prefix)
+        res = enc.run_case("asan", case, prefix)
     if res.rc != 0 or not os.path.exists(prefix + ".ivf"):
         raise core.HarnessError("cannot produce the tiny IVF for the decoder: rc=%s %s" % (res.rc, res.stderr[-300:]))
     return prefix + ".ivf"
 
 
 # ------------------------------------------------------------------ driver
-def explore(chk, which, tier, opts, workers, ks_override=None, scale=1.0):
-    prefix = os.path.join(chk.dir, "fi_" + which)
+def explore(chk, which, tier, opts, workers, ks_override=None, scale=1.0, label=None, mt_prefix=False):
+    """mt_prefix: the API-calling thread shares work with library threads once they exist (multi-threaded decode), so
+    its numbering is a function of the schedule from there on: only the prefix up to and including the last thread
+    creation is enumerated (and must be identical in both runs of run 0)."""
+    label = label or which
+    prefix = os.path.join(chk.dir, "fi_" + label)
     ev1, info1 = run_sites(which, prefix + "_a", opts)
     ev2, info2 = run_sites(which, prefix + "_b", opts)
+    tail = 0
+    if mt_prefix:
+        cut = max([e.k for e in ev1 if e.kind == 4] or [len(ev1)])
+        tail = len(ev1) - cut
+        ev1, ev2 = ev1[:cut], ev2[:cut]
     sig1 = [(e.k, e.phase, e.kind, e.chain) for e in ev1]
     sig2 = [(e.k, e.phase, e.kind, e.chain) for e in ev2]
     if sig1 != sig2:
         n = next((i for i, (a, b) in enumerate(zip(sig1, sig2)) if a != b), min(len(sig1), len(sig2)))
         raise core.HarnessError("run 0 is not deterministic for %s: %d vs %d events, first difference at event %d"
-                                % (which, len(sig1), len(sig2), n + 1))
+                                % (label, len(sig1), len(sig2), n + 1))
     events = ev1
+    baseline = info1["baseline"]
     byk = {e.k: e for e in events}
     if callable(ks_override):
         ks, d = sorted(ks_override(events)), {"rule": "campaign"}
@@ -452,7 +473,8 @@ def explore(chk, which, tier, opts, workers, ks_override=None, scale=1.0):
         ks, d = plan(events, tier, chk.rng, scale, which)
     per_phase = collections.Counter(e.phase for e in events)
     per_kind = collections.Counter(KINDS[e.kind] for e in events)
-    chk.extra.setdefault("run0", {})[which] = {
+    chk.extra.setdefault("run0", {})[label] = {
+        "schedule_dependent_tail_not_enumerated": tail, "unfaulted_session_baseline": baseline,
         "events": len(events), "per_api": {API[which][p]: n for p, n in sorted(per_phase.items())},
         "per_kind": dict(per_kind), "distinct_call_sites": d.get("distinct_call_sites"),
         "distinct_call_chains": d.get("distinct_call_chains"), "deterministic_over_2_runs": True,
@@ -470,9 +492,9 @@ def explore(chk, which, tier, opts, workers, ks_override=None, scale=1.0):
         e = byk[k]
         r = res.get(k)
         if r is None:
-            chk.inconclusive_case("faultinj %s produced no result for k=%d" % (which, k), {"which": which, "k": k})
+            chk.inconclusive_case("faultinj %s produced no result for k=%d" % (label, k), {"which": which, "k": k})
             continue
-        toks, verdict = classify(which, e, r)
+        toks, verdict = classify(which, e, r, baseline)
         chk.count()
         ran_phase[e.phase] += 1
         if verdict == "nothit":
@@ -480,10 +502,10 @@ def explore(chk, which, tier, opts, workers, ks_override=None, scale=1.0):
         if verdict == "inconclusive":
             chk.inconclusive_case("%s k=%d: %s" % (which, k, toks[0][1]), {"which": which, "k": k})
             continue
-        chk.nontrivial_case("%s:%s:%s" % (which, e.site, k))
+        chk.nontrivial_case("%s:%s:%s" % (label, e.site, k))
         if verdict == "held":
             outcomes["clean (error returned, teardown clean)"] += 1
-            chk.sample({"which": which, "k": k, "api": API[which][e.phase], "failed": KINDS[e.kind], "site": e.site_fn,
+            chk.sample({"which": label, "k": k, "api": API[which][e.phase], "failed": KINDS[e.kind], "site": e.site_fn,
                         "outcome": "error returned, deinit+deinit_handle returned, H8/LSan/threads clean",
                         "progress": r.get("progress", "")[:160]}, limit=4)
             continue
@@ -492,20 +514,21 @@ def explore(chk, which, tier, opts, workers, ks_override=None, scale=1.0):
             outcomes[tok if tok in ("returns-success", "leak", "hang") else "crash"] += 1
             ent = found.setdefault(key, {"count": 0, "example_k": k, "what": what, "chain": list(e.chain_fns[:6])})
             ent["count"] += 1
-            chk.violation(key, what, {"which": which, "k": k, "opts": opts, "site": e.site_fn,
+            chk.violation(key, what, {"which": which, "k": k, "opts": opts, "site": e.site_fn, "mt_prefix": mt_prefix,
                                       "chain": list(e.chain_fns[:8]), "progress": r.get("progress", "")},
                           name="%s-%s" % (which, core.sha(key)))
     if chk.tier == "campaign":
-        raw = os.path.join(core.OUT, "c16_campaign_raw_%s_%d.json" % (which, os.getpid()))
+        raw = os.path.join(core.OUT, "c16_campaign_raw_%s_%d.json" % (label, os.getpid()))
         json.dump({"results": {str(k): res[k] for k in res},
+                   "baseline": baseline,
                    "events": {str(k): [byk[k].phase, byk[k].kind, byk[k].site_fn, list(byk[k].chain_fns[:8])] for k in ks}},
                   open(raw, "w"))
         print("raw campaign results: " + raw)
-    chk.extra.setdefault("outcomes", {})[which] = dict(outcomes)
-    chk.extra.setdefault("enumerated", {})[which] = {
+    chk.extra.setdefault("outcomes", {})[label] = dict(outcomes)
+    chk.extra.setdefault("enumerated", {})[label] = {
         "k_run": len(ks), "k_total": len(events), "fraction": round(len(ks) / max(1, len(events)), 4),
         "per_api": {API[which][p]: "%d/%d" % (ran_phase[p], per_phase[p]) for p in sorted(per_phase)}}
-    return events, found, len(ks) == len(events)
+    return events, found, len(ks) == len(events) and tail == 0
 
 
 def enc_opts():
@@ -518,14 +541,17 @@ def run(chk, tier, replay=None):
         c = replay["case"]["case"]
         which = c["which"]
         opts = c["opts"]
-        events, found, _ = explore(chk, which, tier, opts, 1, ks_override=[int(c["k"])])
+        events, found, _ = explore(chk, which, tier, opts, 1, ks_override=[int(c["k"])], mt_prefix=bool(c.get("mt_prefix")))
         return chk.finish(rule="replay of one k")
     scale = getattr(chk, "scale", 1.0)
     ex_all = True
     _, _, ex = explore(chk, "enc", tier, enc_opts(), workers, scale=scale)
     ex_all &= ex
     ivf = tiny_ivf(chk.dir)
-    _, _, ex = explore(chk, "dec", tier, ["ivf=" + ivf, "threads=2", "frames=2"], workers, scale=scale)
+    _, _, ex = explore(chk, "dec", tier, ["ivf=" + ivf, "threads=1", "frames=2"], workers, scale=scale, label="dec-threads1")
+    ex_all &= ex
+    _, _, ex = explore(chk, "dec", tier, ["ivf=" + ivf, "threads=2", "frames=2"], workers, scale=scale, label="dec-threads2",
+                       mt_prefix=True)
     ex_all &= ex
     if ex_all:
         chk.extra["exhaustive"] = True
@@ -533,7 +559,10 @@ def run(chk, tier, replay=None):
         rule="one evaluation = one forked session in which exactly one allocation/creation of the API-calling thread "
              "fails; k chosen by the selection rule in run0.*.selection_rule from the deterministic numbering of run 0 "
              "(verified by running run 0 twice); distinct = (component, call-site address, k); smallest configuration "
-             "(encoder 64x64 lp 1 preset 8 hl 3 intra -1; decoder threads=2 on a 3-frame 64x64 stream)",
+             "(encoder 64x64 lp 1 preset 8 hl 3 intra -1; decoder on a 3-frame 64x64 stream: threads=1 every event of "
+             "init_handle/set_parameter/init/first frame, threads=2 the deterministic prefix up to the last thread creation "
+             "inside the first svt_av1_dec_frame); reports/leaks the UNFAULTED session already shows are not attributed to "
+             "the injected fault",
         explanation="`enumerated` gives, per API, how many of the k were run; coverage.exhaustive is set only when every k "
                     "of both components ran")
 
@@ -577,8 +606,20 @@ def campaign(argv):
             return [int(x) for x in mode[5:].split(",")]
         return plan(events, "campaign", chk.rng, 1.0, which)[0]
 
-    events, found, _ = explore(chk, which, "campaign", opts, workers, ks_override=choose)
-    ks = choose(events)
+    if which == "dec":
+        events, found, _ = explore(chk, which, "campaign", opts[:1] + ["threads=1", "frames=2"], workers,
+                                   ks_override=lambda ev: [e.k for e in ev], label="dec-threads1")
+        ev2, found2, _ = explore(chk, which, "campaign", opts, workers, ks_override=lambda ev: [e.k for e in ev],
+                                 label="dec-threads2", mt_prefix=True)
+        for k, v in found2.items():
+            if k in found:
+                found[k]["count"] += v["count"]
+            else:
+                found[k] = v
+        ks = list(events) + list(ev2)
+    else:
+        events, found, _ = explore(chk, which, "campaign", opts, workers, ks_override=choose)
+        ks = choose(events)
     old = {}
     if os.path.exists(CORPUS_KEYS):
         old = json.load(open(CORPUS_KEYS))
